@@ -27,7 +27,7 @@ func configs(thorough bool) []config {
 	// "dear" = 16 KiB and 4 KiB pages with the default allocator (the CPU device
 	// of a fresh driver owns 256K / 1M frames, a transition costs 8 / 17 ms).
 	type dq struct{ quick, deep int }
-	wide := map[string]dq{"A": {5, 7}, "B": {4, 5}, "C": {4, 5}, "D": {4, 7}, "E": {4, 6}, "F": {5, 8}, "G": {2, 3}, "H": {4, 6}}
+	wide := map[string]dq{"A": {5, 7}, "B": {4, 5}, "C": {4, 5}, "D": {4, 7}, "E": {4, 6}, "F": {5, 8}, "G": {2, 3}, "H": {4, 5}}
 	dear := map[string]dq{"A": {4, 6}, "B": {3, 4}, "C": {3, 4}, "D": {4, 6}, "E": {4, 5}, "F": {5, 7}, "G": {2, 2}, "H": {3, 4}}
 	maxBufsH := 2
 	if thorough {
